@@ -37,6 +37,35 @@ build_mc() {
   echo "BUILD-ERROR: harness does not compile:"; cat "$BUILD/build2.err"; return 2
 }
 
+# run_guarded <id> <cmd...>: runs a check; if the exploring process itself dies
+# (Go runtime "fatal error", an unrecovered panic in a goroutine the harness does
+# not own, a signal) the crash is reported as a violation of the property whose
+# check was running, with the crash output as the replay artefact.
+run_guarded() {
+  local id="$1"; shift
+  local out="$BUILD/$id.$$.out"
+  "$@" 2>&1 | tee "$out"
+  local code=${PIPESTATUS[0]}
+  if [ "$code" -eq 0 ] || [ "$code" -eq 1 ]; then rm -f "$out"; exit "$code"; fi
+  if grep -q "^HARNESS-ERROR\|^BUILD-ERROR" "$out"; then rm -f "$out"; exit 2; fi
+  if grep -q "^fatal error:\|^panic:\|^goroutine [0-9]* \[" "$out" || [ "$code" -ge 128 ]; then
+    local rp="$VERIF_DIR/replays/$id-crash.json"
+    python3 - "$id" "$out" "$rp" "$code" <<'PY'
+import json,sys
+pid,out,rp,code=sys.argv[1:5]
+lines=open(out,errors='replace').read().splitlines()
+head=[l for l in lines if l.startswith(('fatal error','panic:','runtime:'))][:5]
+json.dump({"property":pid,"check":"crash","sig":pid+"|exploring-process-crashed","what":"the process exploring this property crashed inside the code under test","exit_code":int(code),"crash":head,"output_head":lines[:120]},open(rp,'w'),indent=1)
+PY
+    echo "VIOLATION property=$id replay=$rp"
+    echo "  the exploring process crashed (exit $code): $(grep -m1 '^fatal error:\|^panic:' "$out")"
+    rm -f "$out"
+    exit 1
+  fi
+  rm -f "$out"
+  exit "$code"
+}
+
 case "${1:-}" in
   setup)
     build_mc || exit 2
@@ -49,7 +78,7 @@ case "${1:-}" in
   C[0-9][0-9])
     build_mc || exit 2
     export VERIF_TIER="${2:-quick}"
-    exec "$BUILD/mc" "$1"
+    run_guarded "$1" "$BUILD/mc" "$1"
     ;;
   *)
     echo "usage: $0 setup | <property-id> quick|thorough | replay <file>"; exit 2
